@@ -33,3 +33,34 @@ Theorem C13_token_bound :
   forall (fuel : nat) (carry s : list ascii), length s < fuel -> length (fst (lex_root fuel carry s)) <= length s + 2.
 Proof. exact LexerProofs.lex_root_length. Qed.
 Print Assumptions C13_token_bound.
+
+From YG Require Import Lexer YParser YParserProofs.
+Close Scope Z_scope.
+Open Scope nat_scope.
+
+(* the parser model (every loop of Parser.go on fuel, the look-back buffer as it is) never runs out of the fuel 2*|tokens|+8: every loop leaves on EOF or Error and otherwise moves on in the token stream, so parsing ends on every byte string *)
+Theorem C13_parser_total :
+  forall s : list Ascii.ascii, parse_text s <> PFuelOut.
+Proof. exact YParserProofs.parse_text_total. Qed.
+Print Assumptions C13_parser_total.
+
+From YG Require Import Lexer YParser YParserProofs.
+Close Scope Z_scope.
+Open Scope nat_scope.
+
+(* ... for every token list and tail behaviour the lexer could deliver, and any larger amount of fuel *)
+Theorem C13_parser_fuel :
+  forall (ts : list tok) (tl : tail) (fuel : nat),
+         2 * length ts + 8 <= fuel -> parse_tokens fuel ts tl <> PFuelOut.
+Proof. exact YParserProofs.parse_tokens_fuel. Qed.
+Print Assumptions C13_parser_fuel.
+
+From YG Require Import Lexer YParser EndToEnd EndToEndProofs.
+Close Scope Z_scope.
+Open Scope nat_scope.
+
+(* the model of the whole generator (bytes to tables) answers with a syntax verdict, a refusal, the state limit or tables; 'out of fuel in the parser' is never its answer *)
+Theorem C13_generator_answers :
+  forall s : list Ascii.ascii, generate_text s <> GSyntax PFuelOut.
+Proof. exact EndToEndProofs.generate_text_never_out_of_fuel. Qed.
+Print Assumptions C13_generator_answers.
